@@ -116,6 +116,26 @@ func allocCases(seed int64, tier string) []allocCase {
 		add("deep-nesting", "", append(t, 0xA5, 0x01, 0x07))
 		add("deep-nesting-truncated", "", t)
 	}
+	// 4b. deep and wide at once: a list of w small items (scalars, empty lists, short strings) under d enclosing lists,
+	// honestly declared - the message is valid
+	dw := [][2]int{{300, 300}, {1000, 1000}, {2000, 500}, {500, 2000}}
+	if tier == "thorough" {
+		dw = append(dw, [2]int{4000, 4000}, [2]int{10000, 1000})
+	}
+	for _, x := range dw {
+		for _, child := range [][]byte{{0xA5, 0x01, 0x07}, {0x01, 0x00}, {0x41, 0x01, 0x61}, {0x21, 0x00}, {0x01, 0x01, 0xA5, 0x01, 0x07}} {
+			var t []byte
+			for i := 0; i < x[0]; i++ {
+				t = append(t, 0x01, 0x01)
+			}
+			t = append(t, 0x03)
+			t = append(t, len3(x[1])...)
+			for i := 0; i < x[1]; i++ {
+				t = append(t, child...)
+			}
+			add("deep-and-wide", "", t)
+		}
+	}
 	// 5. random bytes and random mutations of a valid message
 	for k := 0; k < 150; k++ {
 		n := r.Intn(200)
